@@ -894,7 +894,7 @@ func main() {
 	defer h.Close()
 	h.Rule = "case = one fresh EventSequencer + 10..70 upstream calls/flushes over a small universe (4 IP sets x 4 members, 4 policies, 3 profiles, 3 endpoints, 3 routes, 3 VTEPs, 5 pass-through categories, wireguard); " +
 		"disciplined cases keep the upstream state reference-closed at every flush (hypothesis of the closure theorem), chaotic cases do not; " +
-		"distinct = distinct op sequence; non-trivial = case with >=2 flushes emitting messages and at least one remove/re-add or add/remove inside one flush window"
+		"graph cases drive the real dispatcher+ActiveRulesCalculator+RuleScanner+PolicyResolver+EventSequencer with datastore histories and ARBITRARY sync-status sequences (regressions included), flushes anywhere; distinct = distinct op sequence; non-trivial = case with >=2 flushes emitting messages and at least one remove/re-add or add/remove inside one flush window"
 	s := &state{}
 	run := func(ops []string, tag string) {
 		h.Case(tag)
@@ -923,12 +923,40 @@ func main() {
 		}
 		h.Sample()
 	}
+	var g *gsys
+	runGraph := func(ops []string, tag string) {
+		h.Case(tag)
+		flushes := 0
+		for _, op := range ops {
+			execGraph(h, &g, op)
+			if op == "g-flush" && g != nil && len(g.evs) > 0 {
+				flushes++
+			}
+		}
+		if flushes >= 2 {
+			h.Nontrivial(strings.Join(ops, ";"))
+		}
+		h.Sample()
+	}
 	if h.Replay != "" {
-		run(h.ReplayLines(), "replay")
+		l := h.ReplayLines()
+		isGraph := false
+		for _, x := range l {
+			if strings.HasPrefix(x, "g-") {
+				isGraph = true
+			}
+		}
+		if isGraph {
+			runGraph(l, "replay")
+		} else {
+			run(l, "replay")
+		}
 		return
 	}
 	for i := 0; i < h.N; i++ {
-		if i%8 == 7 {
+		if i%4 == 1 {
+			runGraph(genGraph(h), "graph")
+		} else if i%8 == 7 {
 			run(genAcg(h), "acg")
 		} else if i%3 == 0 {
 			run(genChaotic(h), "chaotic")
